@@ -251,3 +251,50 @@ Proof.
   - apply bind_ok in H8. destruct H8 as [c [Hc H8]]. inversion H8; subst. unfold cadd in Hc.
     apply chk_ok in Hc. destruct Hc as [-> _]. reflexivity.
 Qed.
+
+(* ---------- locked deposits: the pool manager only ever locks for the depositor ---------- *)
+Definition locks_only_for (w : world) (who : string) (m : submsg) : Prop :=
+  match sm_msg m with
+  | MWasm _ (WFm (FmPosCreate _ _ r)) _ => r = Some who
+  | MWasm fm_addr (WFm (FmPosExpand pid)) _ => exists pos, q_position w fm_addr pid = Ok pos /\ pos_recv pos = who
+  | MWasm _ (WFm _) _ => False
+  | _ => True
+  end.
+
+Lemma provide_locks_only_for_sender w sender funds ls ss r pid u l s' msgs :
+  sender <> PM ->
+  provide_liquidity w sender funds ls ss r pid u l = Ok (s', msgs) ->
+  Forall (locks_only_for w sender) msgs.
+Proof.
+  intros Hs. unfold provide_liquidity, mint_lp_msg. intros H.
+  apply bind_ok in H. destruct H as [p [Hp H]].
+  apply bind_ok in H. destruct H as [[] [He H]].
+  apply bind_ok in H. destruct H as [deps [Hd H]].
+  apply bind_ok in H. destruct H as [[] [Hne H]].
+  apply bind_ok in H. destruct H as [[] [_ H]].
+  assert (Hpm : String.eqb sender PM = false) by (apply String.eqb_neq; exact Hs).
+  destruct deps as [|d0 [|d1 rest]].
+  - cbn in Hne. discriminate.
+  - inv_all; repeat constructor; unfold locks_only_for; cbn; auto.
+  - apply bind_ok in H. destruct H as [ts [_ H]].
+    apply bind_ok in H. destruct H as [[shares msgs0] [Hm0 H]].
+    apply bind_ok in H. destruct H as [pa' [_ H]].
+    apply bind_ok in H. destruct H as [msgs1 [Hm1 H]].
+    apply bind_ok in H. destruct H as [assets'' [_ H]]. inversion H; subst s' msgs; clear H.
+    apply Forall_app. split.
+    + clear Hm1. destruct (p_type p); inv_all; repeat constructor; unfold locks_only_for; cbn; auto.
+    + destruct u as [dur|].
+      * apply bind_ok in Hm1. destruct Hm1 as [[] [Ha Hm1]]. apply ensure_ok in Ha.
+        rewrite Hpm, orb_false_r in Ha. apply String.eqb_eq in Ha.
+        apply bind_ok in Hm1. destruct Hm1 as [m [Hmint Hm1]].
+        apply bind_ok in Hmint. destruct Hmint as [[] [_ Hmint]]. inversion Hmint; subst m; clear Hmint.
+        destruct l as [lid|].
+        -- destruct (q_position w (pm_farm_manager (pm_cfg (w_pm w))) lid) as [pos|e] eqn:Eq.
+           ++ apply bind_ok in Hm1. destruct Hm1 as [[] [Hc Hm1]]. apply ensure_ok in Hc.
+              apply andb_true_iff in Hc. destruct Hc as [_ Hc]. apply String.eqb_eq in Hc.
+              inversion Hm1; subst. repeat constructor; unfold locks_only_for; cbn; auto.
+              exists pos. split; [exact Eq | congruence].
+           ++ inversion Hm1; subst. repeat constructor; unfold locks_only_for; cbn; auto. congruence.
+        -- inversion Hm1; subst. repeat constructor; unfold locks_only_for; cbn; auto. congruence.
+      * inv_all; repeat constructor; unfold locks_only_for; cbn; auto.
+Qed.
